@@ -5,28 +5,39 @@ import json, os, re, subprocess, sys, time, glob
 V = os.path.dirname(os.path.dirname(os.path.abspath(__file__)))
 claims = json.load(open(os.path.join(V, "tools", "claims.json")))
 only = sys.argv[1:]
-res = []
-for d in sorted(glob.glob(os.path.join(V, "seeded", "*"))):
-    if not os.path.isdir(d): continue
+from concurrent.futures import ThreadPoolExecutor
+PAR = int(os.environ.get("EVAL_PAR", "3"))       # seeds evaluated concurrently (each in its own worktree/replay dir)
+WORKERS = os.environ.get("EVAL_WORKERS", "6")   # symgo workers per seed
+extra = {"C08": ["C03"], "C14": ["C03"], "C15": ["C03"], "C10": ["C03"], "C09": ["C03"], "C16": ["C06", "C18"], "C01": ["C03", "C07"]}
+
+def evaluate(d):
     name = os.path.basename(d)
-    if only and not any(o in name for o in only): continue
     meta = json.load(open(os.path.join(d, "meta.json")))
     prop = meta["breaks_property"]
-    # a change may be visible to the checks of related properties too (VM group)
-    props = [prop]
-    extra = {"C08": ["C03"], "C14": ["C03"], "C15": ["C03"], "C10": ["C03"], "C09": ["C03"], "C16": ["C06", "C18"], "C01": ["C03", "C07"]}
-    props += extra.get(prop, [])
     entry = {"seed": name, "breaks": prop, "runs": []}
-    for p in props:
+    if meta.get("obsolete_on_repaired_tree"):
+        entry["obsolete"] = meta["obsolete_on_repaired_tree"]
+        entry["detected"] = False
+        return entry
+    # a change may be visible to the checks of related properties too (VM group)
+    for p in [prop] + extra.get(prop, []):
         if not claims.get(p, {}).get("claimed"): continue
         t0 = time.time()
-        out = subprocess.run([os.path.join(V, "tools", "run_seed.sh"), name, p, "-workers", "12"], capture_output=True, text=True, env=dict(os.environ, TAILN="400")).stdout
+        out = subprocess.run([os.path.join(V, "tools", "run_seed.sh"), name, p, "-workers", WORKERS], capture_output=True, text=True, env=dict(os.environ, TAILN="400")).stdout
         viol = re.findall(r"^  harness=(\S+) assert=(\S+)", out, re.M)
         entry["runs"].append({"check": p, "wall_s": round(time.time() - t0), "detected": "VIOLATION property=" in out,
                               "by": sorted(set(f"{h}:{a}" for h, a in viol))[:6], "inconclusive": "inconclusive=true" in out,
                               "applies": "PATCH-DOES-NOT-APPLY" not in out})
         if entry["runs"][-1]["detected"]: break
     entry["detected"] = any(r["detected"] for r in entry["runs"])
-    res.append(entry)
-    print(name, "DETECTED" if entry["detected"] else "missed", [r["by"][:2] for r in entry["runs"] if r["detected"]], flush=True)
-    json.dump(res, open(os.path.join(V, "seeded", "RESULTS.json"), "w"), indent=1)
+    return entry
+
+dirs = [d for d in sorted(glob.glob(os.path.join(V, "seeded", "*"))) if os.path.isdir(d) and (not only or any(o in os.path.basename(d) for o in only))]
+res = []
+with ThreadPoolExecutor(PAR) as ex:
+    for entry in ex.map(evaluate, dirs):
+        res.append(entry)
+        tag = "obsolete" if entry.get("obsolete") else ("DETECTED" if entry["detected"] else ("DOES-NOT-APPLY" if any(not r["applies"] for r in entry["runs"]) else "missed"))
+        print(entry["seed"], tag, [r["by"][:2] for r in entry["runs"] if r["detected"]], flush=True)
+        json.dump(sorted(res, key=lambda e: e["seed"]), open(os.path.join(V, "seeded", "RESULTS.json"), "w"), indent=1)
+
